@@ -399,12 +399,15 @@ static uint64_t ro_walk(const cbor_item_t* it, int depth) {
     case CBOR_TYPE_BYTESTRING:
       MIX(cbor_bytestring_is_definite(it)); MIX(cbor_bytestring_is_indefinite(it));
       if (cbor_bytestring_is_definite(it)) { MIX(cbor_bytestring_length(it)); const unsigned char* d = cbor_bytestring_handle(it); for (size_t i = 0; i < cbor_bytestring_length(it); i++) MIX(d[i]); }
-      else { MIX(cbor_bytestring_chunk_count(it)); cbor_item_t** c = cbor_bytestring_chunks_handle(it); for (size_t i = 0; i < cbor_bytestring_chunk_count(it); i++) MIX(ro_walk(c[i], depth + 1)); }
+      else { MIX(cbor_bytestring_length(it)); MIX((uintptr_t)cbor_bytestring_handle(it) != 0);   /* total-length / handle getters only assert the major type */
+             MIX(cbor_bytestring_chunk_count(it)); cbor_item_t** c = cbor_bytestring_chunks_handle(it); for (size_t i = 0; i < cbor_bytestring_chunk_count(it); i++) MIX(ro_walk(c[i], depth + 1)); }
       break;
     case CBOR_TYPE_STRING:
       MIX(cbor_string_is_definite(it)); MIX(cbor_string_is_indefinite(it));
       if (cbor_string_is_definite(it)) { MIX(cbor_string_length(it)); MIX(cbor_string_codepoint_count(it)); const unsigned char* d = cbor_string_handle(it); for (size_t i = 0; i < cbor_string_length(it); i++) MIX(d[i]); }
-      else { MIX(cbor_string_chunk_count(it)); cbor_item_t** c = cbor_string_chunks_handle(it); for (size_t i = 0; i < cbor_string_chunk_count(it); i++) MIX(ro_walk(c[i], depth + 1)); }
+      else { MIX(cbor_string_length(it)); MIX(cbor_string_codepoint_count(it)); MIX((uintptr_t)cbor_string_handle(it) != 0);
+             MIX(cbor_string_codepoint_count(it));   /* twice: a getter that caches on first use writes on the first call only */
+             MIX(cbor_string_chunk_count(it)); cbor_item_t** c = cbor_string_chunks_handle(it); for (size_t i = 0; i < cbor_string_chunk_count(it); i++) MIX(ro_walk(c[i], depth + 1)); }
       break;
     case CBOR_TYPE_ARRAY:
       MIX(cbor_array_size(it)); MIX(cbor_array_allocated(it)); MIX(cbor_array_is_definite(it)); MIX(cbor_array_is_indefinite(it));
@@ -479,6 +482,43 @@ static void op_round(const char* tree) {
   free(b); cbor_decref(&it);
 }
 
+
+/* GROWAT <kind a|m|b|s> <capacity>: an indefinite array / map / byte string / text string whose size and capacity are
+   set to <capacity> (as the library's own overflow tests do), then one more entry is added while the allocator refuses
+   and records every request.  Prints: result, number of allocator requests, size of the last request. */
+static int op_growat(const char* kind, unsigned long long cap) {
+  cbor_item_t* c = NULL; cbor_item_t* x = NULL; bool r = false;
+  switch (kind[0]) {
+    case 'a': c = cbor_new_indefinite_array(); x = cbor_build_uint8(1); break;
+    case 'm': c = cbor_new_indefinite_map(); x = cbor_build_uint8(1); break;
+    case 'b': c = cbor_new_indefinite_bytestring(); x = cbor_build_bytestring((cbor_data)"ab", 2); break;
+    case 's': c = cbor_new_indefinite_string(); x = cbor_build_stringn("ab", 2); break;
+    default: return 0;
+  }
+  if (!c || !x) { printf("setup-failed\n"); return 1; }
+  if (kind[0] == 'a') { c->metadata.array_metadata.allocated = cap; c->metadata.array_metadata.end_ptr = cap; }
+  else if (kind[0] == 'm') { c->metadata.map_metadata.allocated = cap; c->metadata.map_metadata.end_ptr = cap; }
+  else { struct cbor_indefinite_string_data* d = (struct cbor_indefinite_string_data*)c->data; d->chunk_count = cap; d->chunk_capacity = cap; }
+  long before = h_alloc_requests();
+  h_alloc_schedule(2, before, NULL);
+  if (kind[0] == 'a') r = cbor_array_push(c, x);
+  else if (kind[0] == 'm') r = cbor_map_add(c, (struct cbor_pair){.key = x, .value = x});
+  else if (kind[0] == 'b') r = cbor_bytestring_add_chunk(c, x);
+  else r = cbor_string_add_chunk(c, x);
+  long reqs = h_alloc_requests() - before;
+  size_t last = h_alloc_last_request_size();
+  h_alloc_schedule(0, 0, NULL);
+  size_t rc_after = cbor_refcount(x);
+  /* back to an empty container so that the release is well defined */
+  if (kind[0] == 'a') { c->metadata.array_metadata.allocated = 0; c->metadata.array_metadata.end_ptr = 0; }
+  else if (kind[0] == 'm') { c->metadata.map_metadata.allocated = 0; c->metadata.map_metadata.end_ptr = 0; }
+  else { struct cbor_indefinite_string_data* d = (struct cbor_indefinite_string_data*)c->data; d->chunk_count = 0; d->chunk_capacity = 0; }
+  cbor_decref(&c); cbor_decref(&x);
+  if (reqs > 0) printf("%s reqs=%ld last=%zu rc=%zu\n", r ? "true" : "false", reqs, last, rc_after);
+  else printf("%s reqs=0 last=- rc=%zu\n", r ? "true" : "false", rc_after);
+  return 1;
+}
+
 int hist_op(int argc, char** w);
 
 int tree_op(int argc, char** w) {
@@ -496,5 +536,7 @@ int tree_op(int argc, char** w) {
     if (!it) { printf("bad-tree\n"); return 1; }
     printf("%zu\n", cbor_serialized_size(it)); cbor_decref(&it); return 1;
   }
+  if (argc == 2 && !strcmp(w[0], "UTF8ITEM")) { extern void op_utf8item(const char*); op_utf8item(w[1]); return 1; }
+  if (argc == 3 && !strcmp(w[0], "GROWAT")) return op_growat(w[1], strtoull(w[2], 0, 10));
   return hist_op(argc, w);
 }
